@@ -19,8 +19,15 @@ pub struct C04;
 /// Observes exactly which bytes the transport hands to a packet parser.
 pub struct RawFrame(pub Vec<u8>);
 
+/// Class byte of frames the harness parser refuses (as a reply parser refuses a packet outside its
+/// set): the transport must have consumed exactly that packet, and go on framing correctly.
+pub const REJECTED_CLASS: u8 = 0xee;
+
 impl ZvtParser for RawFrame {
     fn zvt_parse(bytes: &[u8]) -> ZVTResult<Self> {
+        if bytes.first() == Some(&REJECTED_CLASS) {
+            return Err(zvt::ZVTError::WrongTag(zvt::Tag(REJECTED_CLASS as u16)));
+        }
         Ok(RawFrame(bytes.to_vec()))
     }
 }
@@ -81,6 +88,10 @@ pub struct C04Plan {
     /// change nothing - unless a change gives it one.
     #[serde(default)]
     pub stalls: Vec<(u32, u32)>,
+    /// The stream starts with an acknowledgement `80 00` carrying this many data bytes, which is
+    /// read by the real `write_packet_with_ack` before the packets are read.
+    #[serde(default)]
+    pub ack_first: Option<u32>,
 }
 
 /// Terminal that has everything queued from the start.
@@ -204,6 +215,22 @@ fn run_plan(plan: &C04Plan, want_trace: bool) -> RunOut {
         ends.push(stream.len() as u64);
         refs.push(reference);
     }
+    // an acknowledgement (with data) in front, consumed by write_packet_with_ack
+    let ack_len = match plan.ack_first.filter(|_| plan.cut.is_none()) {
+        Some(n) => {
+            let body: Vec<u8> = (0..n).map(|i| (i % 253) as u8).collect();
+            let f = rc::apdu((0x80, 0x00), &body);
+            let l = f.len();
+            let mut s2 = f;
+            s2.extend_from_slice(&stream);
+            stream = s2;
+            for e in ends.iter_mut() {
+                *e += l as u64;
+            }
+            l as u64
+        }
+        None => 0,
+    };
     let n_payload = refs.len();
     if !plan.sentinel.is_empty() {
         stream.extend_from_slice(&plan.sentinel);
@@ -233,19 +260,33 @@ fn run_plan(plan: &C04Plan, want_trace: bool) -> RunOut {
     }
     let got = Arc::new(Mutex::new(Got::default()));
     let calls = if plan.cut.is_some() { expect_ok + 2 } else { refs.len() };
+    // frames the harness parser refuses
+    let rejected: Vec<bool> = refs.iter().map(|r| r.first() == Some(&REJECTED_CLASS)).collect();
+    if rejected.iter().any(|r| *r) {
+        out.stats.hit("probe.packet_refused_by_parser");
+    }
+    let rejected_for_judge = rejected.clone();
+    let ack_first = plan.ack_first.is_some() && plan.cut.is_none();
+    let ack_seen: Arc<Mutex<Option<(bool, u64)>>> = Arc::new(Mutex::new(None));
+    let ack_seen2 = ack_seen.clone();
     let stream_len = stream.len();
     let res = {
         let got = got.clone();
         let h2 = h.clone();
         let h3 = h.clone();
+        let ack_seen = ack_seen2;
         guarded(move || {
             let fut = async {
                 // inside the runtime: delayed releases are measured on the simulated clock
                 h3.with_io(|io| term.preload(io));
-                for _ in 0..calls {
+                if ack_first {
+                    let r = pt.write_packet_with_ack(&packets::Ack {}).await;
+                    *ack_seen.lock().unwrap() = Some((r.is_ok(), h2.cursor()));
+                }
+                for k in 0..calls {
                     let r = pt.read_packet::<RawFrame>().await;
                     let cur = h2.cursor();
-                    let is_err = r.is_err();
+                    let is_err = r.is_err() && !rejected.get(k).copied().unwrap_or(false);
                     got.lock()
                         .unwrap()
                         .frames
@@ -288,8 +329,42 @@ fn run_plan(plan: &C04Plan, want_trace: bool) -> RunOut {
         );
         return finish(out, &log, plan, want_trace);
     }
+    if ack_first {
+        // whatever write_packet_with_ack makes of an acknowledgement that carries data, it must have
+        // consumed exactly that packet
+        if let Some((ok, cur)) = *ack_seen.lock().unwrap() {
+            if cur != ack_len {
+                out.fail(
+                    if cur > ack_len { "read_ahead" } else { "under_read" },
+                    format!("{sig}/ack"),
+                    format!("write_packet_with_ack returned {} with read cursor {cur}, the acknowledgement (80 00 + {} data bytes) ends at {ack_len}", if ok { "Ok" } else { "Err" }, plan.ack_first.unwrap_or(0)),
+                );
+            }
+            out.stats.hit("probe.ack_with_data");
+        }
+    }
     // (1) frames in order, byte-identical; (2) cursor at the boundary after each
     for i in 0..expect_ok {
+        if rejected_for_judge[i] {
+            // refused by the parser: an error, the packet consumed completely, nothing more
+            match got.frames.get(i) {
+                Some((Err(_), cur)) => {
+                    if *cur != ends[i] {
+                        out.fail(
+                            if *cur > ends[i] { "read_ahead" } else { "under_read" },
+                            sig.clone(),
+                            format!("packet {i} was refused by its parser; the read cursor is {cur}, the packet ends at {}", ends[i]),
+                        );
+                    }
+                }
+                Some((Ok(_), _)) => out.fail("frame_content", sig.clone(), format!("packet {i} must have been handed to the parser with its class byte ee")),
+                None => {
+                    out.fail("missing_packet", sig.clone(), format!("only {} of {} packets were read", got.frames.len(), expect_ok));
+                    break;
+                }
+            }
+            continue;
+        }
         match got.frames.get(i) {
             Some((Ok(f), cur)) => {
                 if *f != refs[i] {
@@ -406,7 +481,7 @@ fn small_frame(rng: &mut Rng) -> FrameSpec {
         _ => rng.range(0, 6) as u32,
     };
     FrameSpec {
-        class: *rng.pick(&[0x04u8, 0x06, 0x80, 0x84, 0xff, 0x00]),
+        class: *rng.pick(&[0x04u8, 0x06, 0x80, 0x84, 0xff, 0x00, REJECTED_CLASS]),
         instr: *rng.pick(&[0x0fu8, 0xff, 0x00, 0xd1, 0x1e]),
         len,
         fill: rng.next_u64() as u8,
@@ -493,6 +568,7 @@ impl Check for C04 {
                 sentinel: sentinel(),
                 label: "header".into(),
                 stalls: vec![],
+                ack_first: None,
             }
         }));
         // (b) every partition of short streams (covers 3- and 5-byte headers split everywhere)
@@ -511,6 +587,25 @@ impl Check for C04 {
                 sentinel: sentinel(),
                 label: "partitions".into(),
                 stalls: vec![],
+                ack_first: None,
+            }
+        }));
+        // stream A': a packet its parser refuses, then a good one: 5 + 4 + 5 = 14 bytes -> 2^13 partitions
+        fams.push(Family::new("all_partitions_refused_packet_then_good_one", 1 << 13, true, |i, _rng| {
+            let mut sched = Sched::whole();
+            sched.read_list = composition(14, i);
+            C04Plan {
+                frames: vec![
+                    FrameSpec { class: REJECTED_CLASS, instr: 0x01, len: 2, fill: 0x06, via_writer: false },
+                    FrameSpec { class: 0x06, instr: 0x1e, len: 1, fill: 0x6c, via_writer: false },
+                ],
+                sched,
+                wsched: Sched::whole(),
+                cut: None,
+                sentinel: sentinel(),
+                label: "partitions_refused".into(),
+                stalls: vec![],
+                ack_first: None,
             }
         }));
         // stream B: extended header: 5 header bytes split everywhere, body 255 in one piece or bytewise
@@ -529,6 +624,7 @@ impl Check for C04 {
                 sentinel: sentinel(),
                 label: "partitions_ext".into(),
                 stalls: vec![],
+                ack_first: None,
             }
         }));
         // (c) end of stream at every byte position of a multi-frame stream
@@ -564,6 +660,7 @@ impl Check for C04 {
                     sentinel: sentinel(),
                     label: "eof".into(),
                     stalls: vec![],
+                    ack_first: None,
                 }
             }));
         }
@@ -595,6 +692,7 @@ impl Check for C04 {
                     sentinel: sentinel(),
                     label: "stall".into(),
                     stalls: vec![(off, ms)],
+                    ack_first: None,
                 }
             }));
         }
@@ -630,6 +728,7 @@ impl Check for C04 {
                 sentinel: sentinel(),
                 label: "random".into(),
                 stalls,
+                ack_first: if rng.pct(10) { Some(*rng.pick(&[0u32, 1, 2, 3, 254, 255, 256, 1000])) } else { None },
             }
         }));
         fams
@@ -684,7 +783,7 @@ impl Check for C04 {
     }
 
     fn rule_text(&self) -> String {
-        "one run = k frames (real write_packet output of PrintLine/Ack for via_writer frames, reference framing otherwise) + sentinel, read back by the real read_packet::<RawFrame> over a SimConn; families: writer/reader header agreement per body length (thorough: all 0..65535; quick: 0..600, the top 16, boundary and PRNG lengths), all 2^11 partitions of a 12-byte three-packet stream, all partitions of an extended (5-byte) header, end of stream at every byte position of a five-packet stream (EOF and ECONNRESET), a stall of the peer (1 ms .. 1 h of virtual time) at every byte position of the headers and around the packet boundaries of a four-packet stream, PRNG streams x PRNG schedules x optional cut x optional stalls; distinct = hash of (frame lengths, cut position, first 64 read sizes); non-trivial = non-whole schedule, a cut, or more than one frame".into()
+        "one run = k frames (real write_packet output of PrintLine/Ack for via_writer frames, reference framing otherwise) + sentinel, read back by the real read_packet::<RawFrame> over a SimConn; families: writer/reader header agreement per body length (thorough: all 0..65535; quick: 0..600, the top 16, boundary and PRNG lengths), all 2^11 partitions of a 12-byte three-packet stream, all 2^13 partitions of a stream whose first packet the parser refuses (it must be consumed completely and framing must go on), all partitions of an extended (5-byte) header, end of stream at every byte position of a five-packet stream (EOF and ECONNRESET), a stall of the peer (1 ms .. 1 h of virtual time) at every byte position of the headers and around the packet boundaries of a four-packet stream, PRNG streams x PRNG schedules x optional cut x optional stalls; distinct = hash of (frame lengths, cut position, first 64 read sizes); non-trivial = non-whole schedule, a cut, or more than one frame".into()
     }
     fn assumptions(&self) -> Vec<String> {
         vec![
